@@ -6,7 +6,7 @@ from vf.lib import INFINITY, Point, PointJacobi
 # representation kinds of a finite point
 FINITE_REPS = ("j1", "jz2", "jzr", "neg1", "negz", "legacy")
 # representation kinds of the identity
-IDENT_REPS = ("INF", "z0", "yz0_001")
+IDENT_REPS = ("INF", "z0", "yz0_001", "INFcopy")
 
 
 def build(cfp, P, rep, rng, order=None, generator=False):
@@ -21,6 +21,8 @@ def build(cfp, P, rep, rng, order=None, generator=False):
             return PointJacobi(cfp, rng.randrange(1, p), rng.randrange(1, p), 0, order)
         if rep == "yz0_001":
             return PointJacobi(cfp, 0, 0, 1, order)
+        if rep == "INFcopy":      # what pickle / deepcopy / a user makes of the identity: equal to INFINITY, not the same object
+            return Point(None, None, None)
         raise ValueError(rep)
     x, y = P
     if rep == "j1":
@@ -48,7 +50,7 @@ def rep_class(rep):
 
 def denotes_identity(obj):
     """Does a *result* object denote the identity, as far as a user can tell?"""
-    if obj is INFINITY:
+    if obj is INFINITY or (isinstance(obj, Point) and obj.curve() is None and (obj == INFINITY) is True):
         return True
     if isinstance(obj, PointJacobi):
         try:
@@ -115,6 +117,8 @@ def src(obj, cvar="cfp"):
     """Python source that rebuilds an equivalent object (for repro scripts)."""
     if obj is INFINITY:
         return "INFINITY"
+    if isinstance(obj, Point) and obj.curve() is None:
+        return "Point(None, None, None)"
     if isinstance(obj, PointJacobi):
         X, Y, Z = (int(c) for c in lib.raw_coords(obj))
         o = obj.order()
